@@ -126,6 +126,18 @@ CHECKS['C15'] = dict(
         'Carriers A (sight above/below bore, level and 20 deg), B (Mach crossing), horizon K <= 12 / 40 steps.',
    ref='3/C15')
 
+CHECKS['C10'] = dict(
+   text='Inductive frame: a calculator whose solver object carries ARBITRARY residual state (every instance attribute symbolic / poisoned) and changed process globals runs one real public operation on a carrier; result bit-identical to a fresh calculator and free of garbage symbols - '
+        'hence every finite history, including ones with raising operations. Deep snapshots of all argument objects before/after each operation with symbolic range/step (every request cell). Write footprint confined to the own solver object.',
+   note='PARTIAL for threads: interleavings are NOT enumerated; the claim rests on disjoint write footprints (decided by snapshot diff of every pre-existing reachable object and the package globals) plus CPython attribute-store atomicity; a 3-thread run vs serial is test strength. '
+        'Carriers A, B (quick) + C, inclined A (thorough). Residual state = the solver object\'s instance attributes as collected from a used calculator. Zero/elevation operations run with a concrete distance (symbolic distance would make the physics symbolic).',
+   ref='3/C10')
+CHECKS['C11'] = dict(
+   text='Carriers with concrete physics and SYMBOLIC range, record step and time step, plain and extra in the same cell: the integration points seen by a pass-through spy are a bit-identical prefix of one reference sequence per carrier; every recorded range row equals the linear interpolation '
+        'of the two bracketing reference points at its distance (terms in the request), time/event rows are reference points; extra output = plain rows (same terms) + event rows.',
+   note='Horizon K <= 12 quick / 40 thorough integration steps; carriers A (two winds), B, C [thorough + more]. Interpolation compared over the reals (identical terms). For shots outside the carrier list the statement follows from C03.filter + C01.step (the step never reads the filter).',
+   ref='3/C11')
+
 NOT_YET = {}
 
 def main():
